@@ -171,6 +171,11 @@ LEMMAS = [
     frozen(ts, ss, rs, I, B, p + 1, k);
     assert(step(ss[k], ts[k], ss[k + 1], rs[k], I));
 }"""),
+    # connects RateLimiter::new's clause (ms) to the hypothesis `rate` of window_frames (ns)
+    Lemma("rate_scale", "(iv: int, R: int)",
+          requires=[("ms", "iv * R >= 1000"), ("R", "R >= 1")],
+          ensures=[("ns", "(iv * 1_000_000) * R >= 1_000_000_000")],
+          body="{ assert((iv * 1_000_000) * R == (iv * R) * 1_000_000) by (nonlinear_arith); }"),
     Lemma("frozen", "(ts: Seq<int>, ss: Seq<LS>, rs: Seq<bool>, I: int, B: int, a: int, k: int)",
           requires=[("h", "valid_trace(ts, ss, rs, I, B)"), ("ak", "0 <= a <= k < ts.len()"),
                     ("none", "forall|m: int| a <= m < k ==> !rs[m]")],
@@ -203,8 +208,8 @@ NL_ALLOW_POST = r"""
             assert(c1 <= c0 + q - 1);
             assert(c1 * iv <= (c0 + q - 1) * iv) by (nonlinear_arith) requires c1 <= c0 + q - 1, iv > 0;
             assert((c0 + q - 1) * iv == c0 * iv + iv * q - iv) by (nonlinear_arith);
-            assert(c1 <= 20);
             assert((c1 + 1) * iv == c1 * iv + iv) by (nonlinear_arith);
+            assert(c1 + 1 <= 20 ==> (c1 + 1) * iv <= 20 * iv) by (nonlinear_arith) requires iv > 0;
         }
 """
 
@@ -236,14 +241,18 @@ UNIT = Unit(
            ensures=[
                ("wf", "r.wf()"),
                ("full-bucket", "r.capacity == 20"),
-               ("C05-interval-upper", "(r.ival() - 1_000_000) * (rate as int) < 1_000_000_000"),
-               ("C05-interval-lower", "r.ival() * (rate as int) >= 1_000_000_000"),
+               ("C05-interval-upper", "(r.interval as int - 1) * (rate as int) < 1000"),
+               ("C05-interval-lower", "(r.interval as int) * (rate as int) >= 1000"),
            ],
            proofs=[(r"Self \{", "before", r"""
         proof {
-            let q = (1000u16 / (rate as u16)) as int; let rr = rate as int;
-            assert(q * rr <= 1000 && (q + 1) * rr > 1000 && q >= 1) by (nonlinear_arith) requires q == 1000int / rr, 1 <= rr <= 255;
-            assert((q * 1_000_000 - 1_000_000) * rr < 1_000_000_000) by (nonlinear_arith) requires q * rr <= 1000, rr >= 1, q >= 1;
+            // division facts for the two usual roundings of 1000 / rate (hints only; the
+            // clauses above do not mention how the interval is computed)
+            let rr = rate as int;
+            let q1 = 1000int / rr; let q2 = (999 + rr) / rr;
+            assert(q1 * rr <= 1000 && (q1 + 1) * rr > 1000 && q1 >= 1) by (nonlinear_arith) requires q1 == 1000int / rr, 1 <= rr <= 255;
+            assert(q2 * rr <= 999 + rr && (q2 + 1) * rr > 999 + rr && q2 >= 1) by (nonlinear_arith) requires q2 == (999 + rr) / rr, 1 <= rr <= 255;
+            assert((q1 - 1) * rr == q1 * rr - rr && (q2 - 1) * rr == q2 * rr - rr && (q1 + 1) * rr == q1 * rr + rr && (q2 + 1) * rr == q2 * rr + rr) by (nonlinear_arith);
         }
 """)]),
         Fn("src/draw_target.rs", "RateLimiter", "allow", ret="res",
@@ -255,6 +264,25 @@ UNIT = Unit(
            ],
            proofs=[(r"self\.capacity = Ord::min", "before", NL_ALLOW),
                    (r"(?m)^\s*true\s*$", "before", NL_ALLOW_POST)]),
+        Fn("src/state.rs", "AtomicPosition", "allow", ret="res",
+           sig_rewrites=[Rw("R2", r"&self", "&mut self")],
+           rewrites=[Rw("R2", r"\bOrdering::", "AOrd::", count=4),
+                     Rw("R14", r"\bMAX_BURST\b", "MAX_BURST_POS", count=1)],
+           requires=[("time-range", "now.ns() - old(self).start.ns() < 0x1_0000_0000_0000_0000")],
+           ensures=[
+               ("frame", "final(self).start == old(self).start && final(self).pos@ == old(self).pos@"),
+               ("C05-step", "step(old(self).ls(), rel(now, old(self).start), final(self).ls(), res, 1_000_000)"),
+               ("C05-burst", "res ==> burst_ok(final(self).ls(), rel(now, old(self).start), 1_000_000, 10)"),
+           ],
+           proofs=[(r"capacity = Ord::min", "before", r"""
+        proof {
+            let d = diff as int;
+            assert(d == 1_000_000 * (d / 1_000_000) + d % 1_000_000) by (nonlinear_arith);
+            assert(0 <= d % 1_000_000 < 1_000_000) by (nonlinear_arith);
+            assert(d >= 1_000_000 ==> d / 1_000_000 >= 1) by (nonlinear_arith);
+            assert(d / 1_000_000 <= d) by (nonlinear_arith) requires d >= 0;
+        }
+""")]),
     ] + [Raw(TRACE)] + LEMMAS,
 )
 UNIT.items  # noqa
